@@ -91,6 +91,7 @@ class Table:
         self.types = []                 # type names
         self.entries = {}               # type name -> {config key -> (Config, {index -> (key name, value)})}
         self.values = []                # global string pool
+        self.modes = {}                 # (type name, config key) -> 'dense' | 'off16' | 'sparse'
         self.keys = []
 
     def add_type(self, name):
@@ -142,19 +143,32 @@ class Table:
             count = 1 + max([i for (_, es) in self.entries[tname].values() for i in es], default=-1)
             chunks += struct.pack("<HHIBBHI", 0x0202, 16, 16 + 4 * count, tid, 0, 0, count) + b"\0\0\0\0" * count
             for (cfg, es) in self.entries[tname].values():
+                mode = self.modes.get((tname, cfg.key()), "dense")
                 body = bytearray()
-                offsets = []
+                present = []
                 for i in range(count):
                     if i in es:
-                        offsets.append(len(body))
+                        while len(body) % 4:
+                            body.append(0)
+                        present.append((i, len(body)))
                         body += self._entry(*es[i])
-                    else:
-                        offsets.append(0xFFFFFFFF)
+                pos = dict(present)
+                if mode == "sparse":                      # FLAG_SPARSE: (index u16, offset/4 u16) for the present entries only
+                    table = b"".join(struct.pack("<HH", i, o // 4) for i, o in present)
+                    flags, n = 1, len(present)
+                elif mode == "off16":                     # FLAG_OFFSET16: offset/4 as u16, 0xffff = no entry
+                    table = b"".join(struct.pack("<H", pos[i] // 4 if i in pos else 0xFFFF) for i in range(count))
+                    if len(table) % 4:
+                        table += b"\0\0"
+                    flags, n = 2, count
+                else:
+                    table = b"".join(struct.pack("<I", pos.get(i, 0xFFFFFFFF)) for i in range(count))
+                    flags, n = 0, count
                 cfgb = cfg.pack()
                 hsize = 20 + len(cfgb)
-                start = hsize + 4 * count
-                chunks += struct.pack("<HHIBBHII", 0x0201, hsize, start + len(body), tid, 0, 0, count, start) + cfgb
-                chunks += b"".join(struct.pack("<I", o) for o in offsets) + bytes(body)
+                start = hsize + len(table)
+                chunks += struct.pack("<HHIBBHII", 0x0201, hsize, start + len(body), tid, flags, 0, n, start) + cfgb
+                chunks += table + bytes(body)
         tpool = string_pool(self.types, utf8=False)
         kpool = string_pool(self.keys, utf8=self.utf8)
         hsize = 288
